@@ -70,29 +70,18 @@ Section Power.
       fold (is_pl aev). fold (is_cr aev).
       destruct (is_pl aev) eqn:Epl.
       + assert (aev = pe) by (eapply Hu; eauto; now left). subst aev.
-        rewrite (is_pl_not_cr _ Epl). cbn [fst snd is_some andb orb]. rewrite orb_true_r.
-        destruct ls; cbn [orb].
-        * cbn [fst snd]. split; reflexivity.
-        * destruct Hq as [Hq|Hq]; subst cre; cbn [is_some].
-          -- destruct (IH (Some pe) None) as [H1 H2]; auto; rewrite H1, H2; cbn [is_some orb]; split; reflexivity.
-          -- cbn [fst snd orb]. split; reflexivity.
+        rewrite (is_pl_not_cr _ Epl). cbn [fst snd orb]. rewrite orb_true_r.
+        destruct (IH (Some pe) cre (or_intror eq_refl) Hq Hu') as [H1 H2]. rewrite H1, H2. cbn [is_some orb]. split; reflexivity.
       + destruct (negb ls && is_cr aev) eqn:Ec.
         * apply andb_true_iff in Ec as [Els Ecr]. apply negb_true_iff in Els. subst ls.
           assert (aev = ce) by (eapply (hc_single Hc); eauto). subst aev. rewrite Ecr.
-          cbn [fst snd is_some orb andb]. rewrite !orb_true_r.
-          destruct Hp as [Hp|Hp]; subst plev; cbn [is_some andb orb].
-          -- destruct (IH None (Some ce)) as [H1 H2]; auto; rewrite H1, H2; cbn [is_some orb]; split; reflexivity.
-          -- cbn [fst snd]. split; reflexivity.
+          cbn [fst snd orb]. rewrite !orb_true_r.
+          destruct (IH plev (Some ce) Hp (or_intror eq_refl) Hu') as [H1 H2]. rewrite H1, H2. cbn [is_some orb]. split; reflexivity.
         * cbn [fst snd orb].
           assert (Hcr : ls = false -> is_cr aev = false).
           { intros ->. cbn [negb andb] in Ec. exact Ec. }
-          destruct (is_some plev && (ls || is_some cre)) eqn:Eb.
-          -- apply andb_true_iff in Eb as [Eb1 Eb2]. cbn [fst snd]. rewrite Eb1. cbn [orb].
-             destruct Hp as [Hp|Hp]; subst plev; [discriminate|]. split; [reflexivity|].
-             destruct ls; [reflexivity|]. cbn [orb] in Eb2. rewrite Eb2. cbn [orb].
-             destruct Hq as [Hq|Hq]; subst cre; [discriminate|reflexivity].
-          -- destruct (IH plev cre) as [H1 H2]; auto. rewrite H1, H2. split; [reflexivity|].
-             destruct ls; [reflexivity|]. now rewrite (Hcr eq_refl).
+          destruct (IH plev cre Hp Hq Hu') as [H1 H2]. rewrite H1, H2. split; [reflexivity|].
+          destruct ls; [reflexivity|]. now rewrite (Hcr eq_refl).
   Qed.
 
   (** ** One call of get_power_level_for_sender *)
